@@ -33,6 +33,7 @@ ConvDrift(ev) ==
 (* wide (sampled) conversions; values are <<hi,lo>> 16-bit words            *)
 RangeBig(m) == IF m.kind = "f" THEN <<0,0,0,64>>            \* 2^30
                ELSE IF m.bits = 32 THEN <<255,255,255,255>>
+               ELSE IF m.bits > 16 THEN <<255, 255>> \o BigOfNat(Pow2(m.bits - 16) - 1)
                ELSE BigOfNat(Pow2(m.bits) - 1)
 
 ConvWVerdict(ev) ==
@@ -72,26 +73,30 @@ MulVerdict(ev) ==
 
 MulDrift(ev) ==
     LET m == ev.m a == ev.a n == Len(ev.bs)
-        r == ChRange(m) n8 == m.native /\ m.bits = 8
-        Same(i) == ev.ab[i] = I_MulR(n8, r, a, ev.bs[i])
+        r == ChRange(m) fl == I_MulFlavour(m)
+        Same(i) == ev.ab[i] \in I_MulSet(fl, r, a, ev.bs[i]) /\ ev.ba[i] = ev.ab[i]
         b == FirstBad(n, Same)
     IN IF b = 0 THEN {} ELSE {V("I_Mul", "model", m.name, [a |-> a, b |-> ev.bs[b], got |-> ev.ab[b]])}
 
-\* float multiply on the dyadic grid k/64: exact product, scaled by 2^30
+\* sampled multiply of wide models: float on the dyadic grid k/64 (exact product, values scaled by 2^30)
+\* and 17..32-bit integral models; r*R within R of a*b (inclusive), float: within 2^-28 of the range
 MulWVerdict(ev) ==
-    LET one == <<0,0,0,64>>
+    LET isF == ev.m.kind = "f"
+        one == RangeBig(ev.m)
         a == BigOfWords(ev.a) n == Len(ev.bs)
         b(i) == BigOfWords(ev.bs[i])
         ab(i) == BigOfWords(ev.ab[i]) ba(i) == BigOfWords(ev.ba[i])
-        tol == <<0,0,0,0,1>>                      \* 2^32 = 2^30 * 2^30 * 2^-28
+        tol == IF isF THEN <<0,0,0,0,1>> ELSE one         \* float: 2^32 = 2^30 * 2^30 * 2^-28
         Near(i) == BigLe(BigAbsDiff(BigMul(ab(i), one), BigMul(a, b(i))), tol)
                    /\ BigLe(BigAbsDiff(BigMul(ba(i), one), BigMul(a, b(i))), tol)
         InR(i)  == BigLe(ab(i), one) /\ BigLe(ba(i), one)
         Comm(i) == BigCmp(ab(i), ba(i)) = 0
         Mono(i) == i = 1 \/ (BigLe(ab(i-1), ab(i)) /\ BigLe(ba(i-1), ba(i)))
-        Ident(i) == (BigCmp(b(i), one) = 0 => BigCmp(ab(i), a) = 0) /\ (BigCmp(b(i), <<0>>) = 0 => BigCmp(ab(i), <<0>>) = 0)
+        Ident(i) == /\ (BigCmp(b(i), one) = 0 => (BigCmp(ab(i), a) = 0 /\ BigCmp(ba(i), a) = 0))
+                    /\ (BigCmp(b(i), <<0>>) = 0 => (BigCmp(ab(i), <<0>>) = 0 /\ BigCmp(ba(i), <<0>>) = 0))
+        cause == IF isF THEN "float" ELSE IF ev.m.native THEN "native" ELSE "generic-double"
         chk(cl, Ok(_)) == LET k == FirstBad(n, Ok) IN
-                          IF k = 0 THEN {} ELSE {V(cl, "float", ev.m.name, [a |-> ev.a, b |-> ev.bs[k], ab |-> ev.ab[k]])}
+                          IF k = 0 THEN {} ELSE {V(cl, cause, ev.m.name, [a |-> ev.a, b |-> ev.bs[k], ab |-> ev.ab[k], ba |-> ev.ba[k]])}
     IN chk("P_MulInRange", InR) \cup chk("P_MulNear", Near) \cup chk("P_MulCommutative", Comm)
        \cup chk("P_MulMonotone", Mono) \cup chk("P_MulIdentity", Ident)
 
